@@ -181,6 +181,32 @@ func (e *Engine) renames(fn *types.Func) *renameMaps {
 			}
 		}
 		gapOld, gapCur = fo, fc
+		// pair the candidates type by type, in order (declarations of different types may have been
+		// reordered among themselves at the same time)
+		if len(gapOld) == len(gapCur) {
+			byType := map[string][]localDecl{}
+			for _, c := range gapCur {
+				byType[c.Type] = append(byType[c.Type], c)
+			}
+			cntOld := map[string]int{}
+			for _, o := range gapOld {
+				cntOld[o.Type]++
+			}
+			paired := make([]localDecl, 0, len(gapOld))
+			okAll := true
+			next := map[string]int{}
+			for _, o := range gapOld {
+				if cntOld[o.Type] != len(byType[o.Type]) {
+					okAll = false
+					break
+				}
+				paired = append(paired, byType[o.Type][next[o.Type]])
+				next[o.Type]++
+			}
+			if okAll {
+				gapCur = paired
+			}
+		}
 		if len(gapOld) == len(gapCur) {
 			for k := range gapOld {
 				o, c := gapOld[k], gapCur[k]
@@ -219,6 +245,53 @@ func (e *Engine) renames(fn *types.Func) *renameMaps {
 	gapOld = append(gapOld, old[i:]...)
 	gapCur = append(gapCur, cur[j:]...)
 	flush()
+	// what the gap pass left unpaired (declarations that also moved): names that lost a declaration against
+	// names new to the function, type by type in source order, when their numbers agree
+	{
+		var lostOld, newCur []localDecl
+		lost := map[string]int{}
+		for _, d := range old {
+			if _, done := res.old2new[d.Name]; done || conflict[d.Name] {
+				continue
+			}
+			if curNames[d.Name]+lost[d.Name] < oldNames[d.Name] {
+				lost[d.Name]++
+				lostOld = append(lostOld, d)
+			}
+		}
+		for _, d := range cur {
+			if _, done := res.new2old[d.Name]; done {
+				continue
+			}
+			if oldNames[d.Name] == 0 {
+				newCur = append(newCur, d)
+			}
+		}
+		oldBy, curBy := map[string][]localDecl{}, map[string][]localDecl{}
+		for _, d := range lostOld {
+			oldBy[d.Type] = append(oldBy[d.Type], d)
+		}
+		for _, d := range newCur {
+			curBy[d.Type] = append(curBy[d.Type], d)
+		}
+		for t, os := range oldBy {
+			cs := curBy[t]
+			if len(os) != len(cs) {
+				continue
+			}
+			for k := range os {
+				o, c := os[k], cs[k]
+				if _, ok := res.old2new[o.Name]; ok {
+					continue
+				}
+				if _, ok := res.new2old[c.Name]; ok {
+					continue
+				}
+				res.old2new[o.Name] = c.Name
+				res.new2old[c.Name] = o.Name
+			}
+		}
+	}
 	for o := range conflict {
 		if nw, ok := res.old2new[o]; ok {
 			delete(res.new2old, nw)
@@ -233,7 +306,7 @@ func (e *Engine) renames(fn *types.Func) *renameMaps {
 
 // stableText rewrites the identifiers of a generated name (obligation name, anchor text) that are
 // renamed locals back to their baseline names.
-func (u *Unit) stableText(s string) string {
+func (u *Unit) renameFn() *types.Func {
 	fn := u.fn
 	if fn == nil && len(u.frames) > 0 {
 		fn = u.frames[0].fn
@@ -241,7 +314,11 @@ func (u *Unit) stableText(s string) string {
 	if u.rootFn != nil {
 		fn = u.rootFn
 	}
-	r := u.eng.renames(fn)
+	return fn
+}
+
+func (u *Unit) stableText(s string) string {
+	r := u.eng.renames(u.renameFn())
 	if r == nil {
 		return s
 	}
